@@ -90,7 +90,10 @@ def gen_spec(rnd, idx):
     # the same program started twice over the same directory (restart): start-up rotation and appending become observable
     sp["runs"] = 2 if (not sp["fatal"] and rnd.random() < 0.3) else 1
     # a share of the INI configurations runs with stdout and stderr on pseudo-terminals (the colour keys only act there)
-    sp["tty"] = bool(mode != "oneline" and not sp["fatal"] and sp["runs"] == 1 and rnd.random() < 0.2)
+    sp["tty"] = rnd.choice(["both", "stdout", "stderr"]) if (mode != "oneline" and not sp["fatal"] and sp["runs"] == 1 and rnd.random() < 0.25) else ""
+    if sp["tty"] and rnd.random() < 0.5:
+        sp["keys"]["stdout_color"] = True
+        sp["keys"]["stderr_color"] = True
     return sp
 
 
@@ -146,7 +149,7 @@ def run_child(ctx, exe, sp):
     rc, so, se = 0, "", ""
     for run in range(sp.get("runs", 1)):
         if sp.get("tty"):
-            rc, so, se = run_tty([exe, "config", os.path.join(d, "ev"), specf, d], env)
+            rc, so, se = run_tty([exe, "config", os.path.join(d, "ev"), specf, d], env, which=sp["tty"])
             break
         try:
             p = subprocess.run([exe, "config", os.path.join(d, "ev"), specf, d], env=env, stdout=subprocess.PIPE, stderr=subprocess.PIPE, timeout=300)
@@ -174,12 +177,12 @@ def run_child(ctx, exe, sp):
             "active_text": active.decode("utf-8", "replace")}
 
 
-def run_tty(argv, env, timeout=120):
-    """child with stdout and stderr each on its own pseudo-terminal -> (rc, stdout text, stderr text)"""
+def run_tty(argv, env, timeout=120, which="both"):
+    """child with stdout and/or stderr on its own pseudo-terminal (the other one on a pipe) -> (rc, stdout text, stderr text)"""
     import pty
     import select
-    m1, s1 = pty.openpty()
-    m2, s2 = pty.openpty()
+    m1, s1 = pty.openpty() if which in ("both", "stdout") else os.pipe()
+    m2, s2 = pty.openpty() if which in ("both", "stderr") else os.pipe()
     p = subprocess.Popen(argv, env=env, stdin=subprocess.DEVNULL, stdout=s1, stderr=s2, close_fds=True)
     os.close(s1)
     os.close(s2)
@@ -225,9 +228,12 @@ def judge_tty(sp, res):
     if exp is None:
         return [], None
     v = []
+    # a *_color sink colourises only when its own stream is a terminal
+    on_tty = {"stdout": sp["tty"] in ("both", "stdout"), "stderr": sp["tty"] in ("both", "stderr")}
     plan = {
-        "stdout": ([bool(k.get("stdout_color"))] if (k.get("stdout") or k.get("stdout_color")) else []),
-        "stderr": ([bool(k.get("stderr_color"))] if (k.get("stderr") or k.get("stderr_color")) else []) + ([False] if k.get("platform_std_log", True) else []),
+        "stdout": ([bool(k.get("stdout_color")) and on_tty["stdout"]] if (k.get("stdout") or k.get("stdout_color")) else []),
+        "stderr": ([bool(k.get("stderr_color")) and on_tty["stderr"]] if (k.get("stderr") or k.get("stderr_color")) else [])
+        + ([False] if k.get("platform_std_log", True) else []),
     }
     for name, sinks in plan.items():
         got = lines_of(res[name])
